@@ -23,6 +23,9 @@ abbrev GoString := List UInt8
 abbrev GoFloat := Int
 abbrev GoErr := Option GoString
 
+/-- Go's `+` on strings -/
+instance : Add GoString := ⟨fun a b => a ++ b⟩
+
 /-- run-time string literal -/
 def gs (s : String) : GoString := s.toUTF8.toList
 
